@@ -494,10 +494,6 @@ def check_C05(ctx):
     allout = concat(ctx, outs, "c05-lines.txt")
     s = hv(ctx, "replay-set", prop="C05", **{"in": allout})
     ctx.traces += s.get("cases", 0)
-    # growth beyond the listed properties: stats::Linkage against the merge machine of spec/HpoLinkage.tla (EXTRA only)
-    louts = [tlc(ctx, f"mc/MC_Linkage_{m}.cfg", "mc/MC_Linkage.tla", workers=8)["out"] for m in (("single", "average") if ctx.quick else ("single", "complete", "average"))]
-    ls = hv(ctx, "replay-linkage", **{"in": concat(ctx, louts, "linkage-lines.txt")})
-    ctx.extra["extra_linkage_matrices"] = ls.get("cases", 0)
     ctx.assumptions += ["small integers are exact in f32, so the crate's f32 result is compared with the spec's rational at relative 1e-6"]
     return finish(ctx)
 
@@ -565,10 +561,6 @@ def check_C07(ctx):
         json.dump({"cmd": "trace-binary", "property": "C07", "src": rec["src"], "line": rec["line"],
                    "diffs": ["the specification's decoder does not accept / does not agree with the bytes written by Ontology::as_bytes (source %s)" % rec["src"]]}, open(rp, "w"))
         ctx.violations.append(dict(property="C07", what="spec Decode rejects as_bytes output (source %s)" % rec["src"], replay=rp))
-    # growth beyond the listed properties: Ontology::compare against spec/HpoCompare.tla (reported as EXTRA only)
-    co = tlc(ctx, "mc/MC_CompareQuick.cfg" if ctx.quick else "mc/MC_Compare.cfg", "mc/MC_Compare.tla", workers=14)["out"]
-    cs = hv(ctx, "replay-compare", **{"in": co})
-    ctx.extra["extra_compare_pairs"] = cs.get("cases", 0)
     so = tlc(ctx, "mc/MC_SetMeta.cfg", "mc/MC_SetMeta.tla", workers=4)["out"]
     ss = hv(ctx, "replay-setmeta", **{"in": so})
     ctx.extra["extra_setmeta_queries"] = ss.get("evaluations", 0)
@@ -708,7 +700,35 @@ def check_C20(ctx):
     return finish(ctx)
 
 
-CHECKS = {"C11": check_C11, "C13": check_C13, "C12": check_C12, "C19": check_C19, "C20": check_C20, "C10": check_C10, "C09": check_C09, "C07": check_C07, "C08": check_C08, "C01": check_C01, "C02": check_C02, "C03": check_C03, "C04": check_C04, "C05": check_C05, "C06": check_C06}
+def check_C17(ctx):
+    ctx.rule = ("spec/HpoLinkage.tla is the merge machine (live clusters, distance matrix, next index, merges, cluster weights); TLC explores it for every distance matrix over a small "
+                "value set (N=4; N=5 for average in the thorough tier) in the modes single / complete / average and, for union, for every assignment of distinct additive weights with the "
+                "user distance |W(A)-W(B)| applied to the united sets; invariants ClosestFirst, SizesAddUp, TreeShape, MachineInSet; ties make the machine nondeterministic and TLC emits "
+                "the set of ALL allowed dendrograms with their leaf order.  The harness runs Linkage::{single,complete,average,union} on singleton HpoSets with a recording callback and "
+                "requires: the returned merges are one of the allowed sequences (distance exact, size exact), into_cluster() = cluster(), binary-tree shape, indicies() is a permutation and the "
+                "mention order, the first callback call offers every unordered pair once, arithmetic modes call it once, union calls it once per merge with the union against every live set; "
+                "non-trivial = every case (N >= 4)")
+    modes = ("single", "average", "union") if ctx.quick else ("single", "complete", "average", "union", "average5")
+    outs = [tlc(ctx, f"mc/MC_Linkage_{m}.cfg", "mc/MC_Linkage.tla", workers=8, timeout=1800)["out"] for m in modes]
+    s = hv(ctx, "replay-linkage", prop="C17", **{"in": concat(ctx, outs, "c17-lines.txt")})
+    ctx.traces += s.get("cases", 0)
+    ctx.assumptions += ["distances are small dyadic rationals, exact in f32; ties are allowed and the crate's choice must be one of the spec's"]
+    return finish(ctx)
+
+
+def check_C18(ctx):
+    ctx.rule = ("spec/HpoCompare.tla defines Ontology::compare as set differences of two abstract ontologies (added/removed by id; changed = same id and name, direct parents, obsolete flag or "
+                "effective replacement differ; records: name or direct term set) and TLC checks CompareLaws (self-compare empty, swap symmetry) on every ordered pair of a pool of generated "
+                "ontologies (36 quick / 144 thorough: extra terms, two edge patterns, obsolete/replacement variants, gene/disease selections, name shapes) and emits both sides as v3 bytes with the "
+                "expected report; the harness loads both, calls compare and checks every list and delta exactly, plus the laws on the real code: compare(l,l) and compare(l, roundtrip(l)) empty "
+                "in both directions, swapping swaps added/removed; non-trivial = the two sides differ")
+    co = tlc(ctx, "mc/MC_CompareQuick.cfg" if ctx.quick else "mc/MC_Compare.cfg", "mc/MC_Compare.tla", workers=14, timeout=1800)["out"]
+    s = hv(ctx, "replay-compare", prop="C18", **{"in": co})
+    ctx.traces += s.get("cases", 0)
+    return finish(ctx)
+
+
+CHECKS = {"C17": check_C17, "C18": check_C18, "C11": check_C11, "C13": check_C13, "C12": check_C12, "C19": check_C19, "C20": check_C20, "C10": check_C10, "C09": check_C09, "C07": check_C07, "C08": check_C08, "C01": check_C01, "C02": check_C02, "C03": check_C03, "C04": check_C04, "C05": check_C05, "C06": check_C06}
 
 
 def run_check(prop, tier, seed):
